@@ -75,7 +75,7 @@ func (d *ReadBuf) ExtractResourceBank() *ResourceBank {
 // if you hold onto the data you risk holding onto a lot of data. If l exceeds
 // the remaining space Next returns io.EOF
 func (d *ReadBuf) Next(l int) ([]byte, error) {
-	if l+d.i > len(d.buf) {
+	if l < 0 || l > len(d.buf)-d.i {
 		return nil, io.EOF
 	}
 	d.i += l
@@ -86,7 +86,7 @@ func (d *ReadBuf) Next(l int) ([]byte, error) {
 // data is held in a StringBank and will be valid only until someone calls Close
 // on that bank. If l exceeds the remaining space NextAsString returns io.EOF
 func (d *ReadBuf) NextAsString(l int) (string, error) {
-	if l+d.i > len(d.buf) {
+	if l < 0 || l > len(d.buf)-d.i {
 		return "", io.EOF
 	}
 	d.i += l
